@@ -29,8 +29,9 @@ META = dict(
          "held for the re-registered engine, the destination of newly persisted tag rows and the RecentRun rows are compared with what "
          "the engine did. A second, shallower exploration adds a second run id (run_started/run_stopped of r2); runs during which a "
          "run_stopped of another run id was delivered are left to C30. Exhaustive within the bound, at every point of the run where a disconnect or restart can be inserted.",
-    note="Graceful restart only (Aggregator.shutdown and dispatcher.shutdown run; a hard crash, where no RecentEngine row is written, is "
-         "outside the statement as read here). One engine, one run id, one tag, tag times increasing by more than the interval. "
+    note="Restart is graceful (Aggregator.shutdown and dispatcher.shutdown run).  A third exploration adds 'kill' (the process dies, nothing "
+         "is written, a new Aggregator starts on the same database): a run whose interruption the database never heard of is then out of scope, "
+         "a run that had been interrupted and given back before must be given back again. One engine, one run id, one tag, tag times increasing by more than the interval. "
          "Tag recording is only demanded once uod_info was resent after the re-registration.",
 )
 
@@ -38,6 +39,8 @@ PREFIX = ("reg", "conn", "uod")
 ALPHABET = ("rs1", "tA+6", "stop1", "disc", "reg", "conn", "uod", "restart", "bounce")
 # second exploration (shallower): a second run id, e.g. a new run started while the aggregator still holds the restored first one
 ALPHABET2 = ALPHABET + ("rs2", "stop2")   # bounce = disc+reg+conn+uod in one step
+# third exploration: the aggregator process is killed (no shutdown handling) and restarted on the same database
+ALPHABET3 = ("rs1", "tA+6", "stop1", "bounce", "kill", "reg", "conn", "uod")
 RUN = "r1"
 
 
@@ -67,7 +70,8 @@ def check_step(obs, i, stats=None):
             out.append((f"C28:run-{kind}:after-{_kinds(post, r)}",
                         f"engine is in run {r} and registered again after {_kinds(post, r)}; after {ev} (step {i}) the aggregator holds run {agg['run']}"))
     # (a') a run that was stopped (and stored) is over: a later re-registration of the idle engine must not bring it back
-    if post["eng_run"] is None and post["registered"] and ev in ("reg", "bounce"):
+    # (not after a kill: the row that says 'in run r1' could not be rewritten when the aggregator died after the stop)
+    if post["eng_run"] is None and post["registered"] and ev in ("reg", "bounce") and not post.get("kills"):
         for r0 in post["stopped"]:
             if r0 in post["reopened"]:
                 continue
@@ -153,11 +157,15 @@ def run(ctx):
     depth2 = 5 if ctx.quick else 8
     ex2 = H.Explorer(ctx, _worker, PREFIX, ALPHABET2, depth2).run(on_result)
     ctx.note(f"[C28] two run ids: depth={depth2} states={ex2.states} transitions={ex2.transitions} checks={tot}")
+    depth3 = 6 if ctx.quick else 8
+    ex3 = H.Explorer(ctx, _worker, PREFIX, ALPHABET3, depth3).run(on_result)
+    ctx.note(f"[C28] with kill: depth={depth3} states={ex3.states} transitions={ex3.transitions} checks={tot}")
     if not (tot["a"] and tot["b"] and tot["c"]):
         raise HarnessError(f"vacuous: an oracle was never evaluated {tot}")
     ctx.coverage.update(
-        states=ex.states + ex2.states, transitions=ex.transitions + ex2.transitions,
-        traces_validated_against_impl=ex.transitions + ex2.transitions,
+        states=ex.states + ex2.states + ex3.states, transitions=ex.transitions + ex2.transitions + ex3.transitions,
+        traces_validated_against_impl=ex.transitions + ex2.transitions + ex3.transitions,
+        third_exploration=dict(alphabet=list(ALPHABET3), depth=depth3, states=ex3.states, transitions=ex3.transitions),
         second_exploration=dict(alphabet=list(ALPHABET2), depth=depth2, states=ex2.states, transitions=ex2.transitions),
         evaluations=tot["a"] + tot["b"] + tot["c"], distinct_nontrivial=info["nontrivial"],
         run_id_checks=tot["a"], tag_recording_checks=tot["b"], tag_updates_where_the_text_is_silent=tot["b_silent"], stored_once_checks=tot["c"],
